@@ -1,8 +1,33 @@
 import DadiVerif.Model.Proto
-import DadiVerif.Model.Step
+import DadiVerif.Model.Integrate
 /- driver ops for the integration core (C01–C04) -/
 namespace DadiVerif.Driver.Integ
 open DadiVerif DadiVerif.Proto
+
+/-- `nu,gamma,h,m,m,…;nu,gamma,h,…` -/
+def parsePops (s : String) : Option (List PopParams) :=
+  (s.splitOn ";").mapM fun p => do
+    let v ← parseList p
+    match v with
+    | nu :: g :: h :: ms => some { nu := nu, gamma := g, h := h, ms := ms }
+    | _ => none
+
+def parseBools (s : String) : Option (List Bool) :=
+  if s = "-" then some [] else (s.splitOn ",").mapM parseBool
+
+def showOptRat : Option Rat → String
+  | none => "inf"
+  | some q => showRat q
+
+/-- parameters that are affine functions of time: value(τ) = c0 + c1·τ, given as two parameter sets -/
+def affine (P0 P1 : StepParams) (τ : Rat) : StepParams :=
+  { pops := List.zipWith (fun (a b : PopParams) =>
+      ({ nu := a.nu + b.nu * τ, gamma := a.gamma + b.gamma * τ, h := a.h + b.h * τ,
+         ms := List.zipWith (fun x y => x + y * τ) a.ms b.ms } : PopParams)) P0.pops P1.pops,
+    theta0 := P0.theta0 + P1.theta0 * τ,
+    beta := match P0.beta, P1.beta with
+      | some x, some y => some (x + y * τ)
+      | b, _ => b }
 
 def handle (toks : List String) : Option String :=
   match toks with
@@ -39,6 +64,44 @@ def handle (toks : List String) : Option String :=
       let a ← parseND a; let b ← parseND b; let c ← parseND c; let phi ← parseND phi
       if a.shape ≠ phi.shape ∨ b.shape ≠ phi.shape ∨ c.shape ≠ phi.shape ∨ ax ≥ phi.shape.length then some "err shape"
       else some ("ok " ++ showND (preSolve ax dt a b c phi))
+  | ["dt", tf, pops] => do
+      let tf ← parseRat tf; let pops ← parsePops pops
+      some ("ok " ++ showOptRat (stepDt tf ⟨pops, 0, none⟩))
+  | ["inject", dt, frozen, nomut, theta0, grids, phi] => do
+      let dt ← parseRat dt; let fr ← parseBools frozen; let nm ← parseBools nomut
+      let th ← parseRat theta0; let grids ← parseGrids grids; let phi ← parseND phi
+      if grids.length ≠ phi.shape.length then some "err shape"
+      else some ("ok " ++ showND (inject grids fr nm dt th phi))
+  | ["sweep", dt, frozen, nomut, theta0, beta, pops, grids, phi] => do
+      let dt ← parseRat dt; let fr ← parseBools frozen; let nm ← parseBools nomut
+      let th ← parseRat theta0; let beta ← parseOptRat beta; let pops ← parsePops pops
+      let grids ← parseGrids grids; let phi ← parseND phi
+      if grids.length ≠ phi.shape.length ∨ pops.length ≠ grids.length then some "err shape"
+      else some ("ok " ++ showND (sweep grids fr nm false (fun _ => ND.ofFn [] fun _ => 1) ⟨pops, th, beta⟩ dt phi))
+  | ["integ", "const", tf, T, t0, frozen, nomut, theta0, beta, pops, grids, phi] => do
+      let tf ← parseRat tf; let T ← parseRat T; let t0 ← parseRat t0
+      let fr ← parseBools frozen; let nm ← parseBools nomut
+      let th ← parseRat theta0; let beta ← parseOptRat beta; let pops ← parsePops pops
+      let grids ← parseGrids grids; let phi ← parseND phi
+      if grids.length ≠ phi.shape.length ∨ pops.length ≠ grids.length then some "err shape"
+      else
+        let P : StepParams := ⟨pops, th, beta⟩
+        let fuel := stepCount (stepDt tf P) t0 T
+        if fuel > 8 then some "err too_many_steps" else
+        some ("ok " ++ toString fuel ++ " " ++
+          showND (integrateConst (sweep grids fr nm false (fun _ => ND.ofFn [] fun _ => 1)) tf P T fuel t0 phi))
+  | ["integ", "fn", tf, T, t0, frozen, nomut, theta0, theta1, beta0, beta1, pops0, pops1, grids, phi] => do
+      let tf ← parseRat tf; let T ← parseRat T; let t0 ← parseRat t0
+      let fr ← parseBools frozen; let nm ← parseBools nomut
+      let th0 ← parseRat theta0; let th1 ← parseRat theta1
+      let b0 ← parseOptRat beta0; let b1 ← parseOptRat beta1
+      let p0 ← parsePops pops0; let p1 ← parsePops pops1
+      let grids ← parseGrids grids; let phi ← parseND phi
+      if grids.length ≠ phi.shape.length ∨ p0.length ≠ grids.length ∨ p1.length ≠ p0.length then some "err shape"
+      else
+        let Pf := affine ⟨p0, th0, b0⟩ ⟨p1, th1, b1⟩
+        -- fuel: generous bound, the loop stops at T by itself
+        some ("ok " ++ showND (integrateFn (sweep grids fr nm false (fun _ => ND.ofFn [] fun _ => 1)) tf Pf T 8 t0 (Pf t0) phi))
   | _ => none
 
 end DadiVerif.Driver.Integ
